@@ -885,20 +885,22 @@ fn boundary_stream(report: &mut Report) -> Option<(String, serde_json::Value)> {
 /// everything one can observe of the component registry
 fn observe_registry(tera: &Tera) -> Vec<String> {
     let mut out = Vec::new();
-    let show = |r: Result<String, tera::Error>| match r {
-        Ok(s) => format!("ok {s}"),
-        Err(e) => format!("err {}", if err_text(&e).contains("not") || e.to_string().contains("not") { "unknown-or-missing" } else { "other" }),
+    // a panic (e.g. a registry entry whose source template is gone) is an observation, not a crash
+    let show = |f: &dyn Fn() -> Result<String, tera::Error>| match catch(std::panic::AssertUnwindSafe(f)) {
+        Ok(Ok(s)) => format!("ok {s}"),
+        Ok(Err(e)) => format!("err {}", if err_text(&e).contains("not") || e.to_string().contains("not") { "unknown-or-missing" } else { "other" }),
+        Err(p) => format!("panic {p}"),
     };
     for name in ["K", "K2", "Only"] {
-        out.push(format!("render_str call {name}: {}", show(tera.render_str(&format!("[{{{{ <{name}/> }}}}]"), &Context::new(), false))));
-        out.push(format!("render_component {name}: {}", show(tera.render_component(name, &Context::new(), None, false))));
+        out.push(format!("render_str call {name}: {}", show(&|| tera.render_str(&format!("[{{{{ <{name}/> }}}}]"), &Context::new(), false))));
+        out.push(format!("render_component {name}: {}", show(&|| tera.render_component(name, &Context::new(), None, false))));
         out.push(format!(
             "get_component_definition {name}: {:?}",
             tera.get_component_definition(name).map(|i| (i.args().iter().map(|a| (a.name().to_string(), a.default().map(|d| format!("{d}")))).collect::<Vec<_>>(), i.rest_param().map(|s| s.to_string())))
         ));
     }
     for t in ["main.txt", "theme/page.txt"] {
-        out.push(format!("render {t}: {}", show(tera.render(t, &Context::new()))));
+        out.push(format!("render {t}: {}", show(&|| tera.render(t, &Context::new()))));
     }
     out
 }
